@@ -127,6 +127,9 @@ def cbmc_flags(job):
     if job.object_bits:
         fl += ['--object-bits', str(job.object_bits)]
     fl += job.cbmc_extra
+    if '--no-standard-checks' in fl:      # must precede the explicit check flags it would otherwise switch off
+        fl.remove('--no-standard-checks')
+        fl.insert(0, '--no-standard-checks')
     return fl
 
 
